@@ -48,7 +48,7 @@ def pass_records(dump):
         if ev == "input":
             cur = {"input": r["g"]}
             out.append(cur)
-        elif cur is not None and ev in ("after_mc", "after_mwb"):
+        elif cur is not None and ev in ("after_mc", "after_mwb", "after_cx", "after_os"):
             cur[ev] = r
         elif cur is not None and ev == "checked":
             cur["checked"] = r["g"]
@@ -84,9 +84,31 @@ def passes_correspondence(accepted_and_rejected):
                 g_mc, ren_mc = densify(rec["after_mc"]["g"])
                 lines.append(json.dumps({"op": "mwb", "g": g_mc}))
                 meta.append(("mwb", o["name"], gi, rec, ren_mc))
+            if "after_cx" in rec and "after_os" in rec:
+                # the forward pass `ordering_stalemates` (repo 3ac248c) vs Pxv.CG.resolveStalemates
+                g_cx, ren_cx = densify(rec["after_cx"]["g"])
+                lines.append(json.dumps({"op": "os", "g": g_cx}))
+                meta.append(("os", o["name"], gi, rec, ren_cx))
     outs = [json.loads(x) for x in pxvlib.run_model("cg", lines)] if lines else []
-    dis, n_clone_graphs = [], 0
+    dis, n_clone_graphs, n_os, n_os_stalemates = [], 0, 0, 0
     for (op, name, gi, rec, ren), ln, mo in zip(meta, lines, outs):
+        if op == "os":
+            n_os += 1
+            n_os_stalemates += 1 if mo.get("stalemate") else 0
+            real = rec["after_os"]
+            real_edges = canon_edges(None, real["g"]["edges"], ren)
+            ident = {i: i for i in range(len(json.loads(ln)["g"]["nodes"]))}
+            model_edges = canon_edges(None, mo["g"]["edges"], ident)
+            # one diagnostic per contended input of a reported node (inputs without a component id are skipped by pavexc)
+            model_n = sum(len(d.get("blocked", [])) for d in mo["diags"])
+            fuel = any(d.get("outOfFuel") for d in mo["diags"])
+            bad_order = (not mo["diags"]) and not mo.get("orderOk")
+            if real_edges != model_edges or fuel or bad_order or (real["ndiag"] > 0) != (model_n > 0) or real["ndiag"] > model_n:
+                dis.append({"pass": op, "program": name, "graph": gi, "request": json.loads(ln),
+                            "real_edges": real_edges, "model_edges": model_edges, "out_of_fuel": fuel,
+                            "model_order_stuck_after_silent_pass": bad_order,
+                            "real_new_diagnostics": real["ndiag"], "model_diagnostics": mo["diags"]})
+            continue
         real = rec["after_mc"] if op == "mc" else rec["after_mwb"]
         base = 0 if op == "mc" else rec["after_mc"]["ndiag"]
         real_edges = canon_edges(None, real["g"]["edges"], ren)
@@ -98,7 +120,8 @@ def passes_correspondence(accepted_and_rejected):
             dis.append({"pass": op, "program": name, "graph": gi, "request": json.loads(ln),
                         "real_edges": real_edges, "model_edges": model_edges,
                         "real_new_diagnostics": real["ndiag"] - base, "model_diagnostics": mo["diags"]})
-    return {"evaluations": len(lines), "graphs_with_clones": n_clone_graphs, "disagreements": dis}
+    return {"evaluations": len(lines), "graphs_with_clones": n_clone_graphs, "ordering_stalemates_evaluations": n_os,
+            "ordering_stalemates_found": n_os_stalemates, "disagreements": dis}
 
 
 def densify(g):
@@ -327,7 +350,7 @@ def run(R):
         broken.append("correspondence `ownCheck`: the ownership model rejects a body that rustc accepts for %d program(s), first: %s" % (
             len(spec_disagree), json.dumps(spec_disagree[0])[:400]))
     if pc["disagreements"]:
-        broken.append("correspondence `multipleConsumers`/`moveWhileBorrowed`: the mirrored pass and the real pass disagree on %d/%d graphs, first: %s" % (
+        broken.append("correspondence `multipleConsumers`/`moveWhileBorrowed`/`resolveStalemates`: the mirrored pass and the real pass disagree on %d/%d graphs, first: %s" % (
             len(pc["disagreements"]), pc["evaluations"], json.dumps(pc["disagreements"][0])[:700]))
     if sv["disagreements"]:
         broken.append("correspondence `OwnSafe vs rustc`: %d/%d random bodies judged differently, first: %s" % (
